@@ -155,7 +155,8 @@ def norm_res(res, nf):
                       "versions": [vcode(v) for v in pl.get("versions", [])]})
     return {"kind": res["kind"], "exc": res.get("exc", ""), "reason": res.get("reason", ""),
             "mc": res.get("msgc", "") if res["kind"] == "raised" else "",
-            "ver": vcode(res.get("ver", (0, 0))), "count": res.get("count", 0), "items": items}
+            "ver": vcode(res.get("ver", (0, 0))), "count": res.get("count", 0), "items": items,
+            "unenc": bool(res.get("unenc")), "undec": bool(res.get("undec"))}
 
 
 def norm_state(st):
@@ -201,6 +202,7 @@ class Recorder(object):
         self.steps = []
         self.raw = []            # the abstract requests, for replay files
         self.issued = set()
+        self.unsendable = 0
         self.gfh = _GFHandler()
         logging.getLogger("kmip.server.engine").addHandler(self.gfh)
         self.nf = None
@@ -240,6 +242,9 @@ class Recorder(object):
         self.gfh.hit = False
         now = int(D.CLOCK.now)
         res = self.drv.request(req)
+        if res.get("kind") == "unsendable":
+            self.unsendable += 1
+            return res
         post = self.drv.state()
         step = {"kind": "req", "pre": norm_state(pre), "post": norm_state(post), "mids": list(self._mids),
                 "executed": len(self._mids), "req": norm_req(req, now, self.drv.intern), "res": norm_res(res, self.nf),
